@@ -66,10 +66,10 @@ Definition dec_case16N (inp : sx) : case16N :=
             (dec_tree tree_depth_bound (sx_nth inp 2)) (dec_meth (sx_nth inp 3)) (dec_table (sx_nth inp 4))
             (dec_bytes (sx_nth inp 5)).
 
-Definition run16N (inp : sx) : sx :=
+Definition out16N (inp : sx) : outN :=
   let c := dec_case16N inp in
-  enc_outN (n_report c)
-    (run_tree (lookup (n_tbl c)) (n_cfg c) (16 + tree_fuel (n_tree c)) (n_tree c) (n_meth c)).
+  run_tree (lookup (n_tbl c)) (n_cfg c) (16 + tree_fuel (n_tree c)) (n_tree c) (n_meth c).
+Definition run16N (inp : sx) : sx := enc_outN (n_report (dec_case16N inp)) (out16N inp).
 
 (** * Monitor: the property on the implementation's observation.
 
@@ -203,14 +203,8 @@ with ans_ok (C : bytes) (a : nanss) : bool :=
 Definition streamingb (m : meth) : bool :=
   match m with MIntoWriter | MToChunkReader _ _ _ | MToReader _ _ => true | _ => false end.
 
-Definition mon16N (inp obs : sx) : list Z :=
-  let c := dec_case16N inp in
-  let m := n_meth c in
-  let t := n_tree c in
-  let C := n_obj c in
-  let delivered := dec_bytes (sx_nth obs 0) in
-  let code := sx_Z (sx_nth obs 1) in
-  let ot := dec_ctree tree_depth_bound (sx_nth obs 5) in
+(** the monitor on decoded data *)
+Definition monN_data (t : nbuf) (m : meth) (C delivered : bytes) (code : Z) (ot : ctree) : list Z :=
   let pre := tree_ok C t && wrapped_ok t in
   let stream := streamingb m in
   (* 1: Done is reported exactly once to every handler that exists *)
@@ -233,6 +227,11 @@ Definition mon16N (inp obs : sx) : list Z :=
    (* 7: whatever the outcome of a streaming method, the bytes handed out are a prefix of the
          expected slice: nothing duplicated, skipped or foreign *)
    (if pre && stream && negb (bytes_prefix delivered (expected m C)) then [7] else [])).
+
+Definition mon16N (inp obs : sx) : list Z :=
+  let c := dec_case16N inp in
+  monN_data (n_tree c) (n_meth c) (n_obj c) (dec_bytes (sx_nth obs 0)) (sx_Z (sx_nth obs 1))
+            (dec_ctree tree_depth_bound (sx_nth obs 5)).
 
 Definition judge16N (inp obs : sx) : sx :=
   let m := run16N inp in
